@@ -542,6 +542,7 @@ Loop:
 		case ' ':
 		case '\n':
 		case '\t':
+		case '\r':
 			continue
 		case '[':
 			return true
@@ -1272,7 +1273,7 @@ func (p Patch) ApplyIndentWithOptions(doc []byte, indent string, options *ApplyO
 	self := newLazyNode(&raw)
 
 	var pd container
-	if doc[0] == '[' {
+	if isArray(doc) {
 		pd = &partialArray{
 			self: self,
 		}
